@@ -38,17 +38,23 @@ Undecodable == [OkUnary EXCEPT !.cl.frames = <<[Frame(1, FALSE) EXCEPT !.fault =
 \* the handler closes the request body from one goroutine while another is blocked in a Read in the
 \* middle of a message of a decoded (transforming) request stream; the rest of the message arrives later
 CloseRace == [OkStreamGzip EXCEPT !.cl.frames = <<Frame(1, TRUE)>>, !.hd.noread = TRUE, !.hd.closerace = TRUE]
+\* full duplex: the handler's writer goroutine is inside the Write of a response message (envelope out, payload
+\* not yet) when its reader goroutine meets a malformed request envelope; then the writer goes on
+DuplexFault == [Base EXCEPT !.cl.form = "grpcweb", !.cl.major = 2, !.cl.codec = "proto", !.cl.method = "Bidi",
+                            !.cl.frames = <<Frame(1, FALSE), [Frame(2, FALSE) EXCEPT !.fault = "flags:4"]>>,
+                            !.hd.frames = <<Frame(9, FALSE)>>, !.hd.duplex = TRUE]
+DuplexFaultJson == [DuplexFault EXCEPT !.cl.codec = "json"]
 BackendPanic == [OkUnary EXCEPT !.hd.exit = "panic"]
 BackendError == [OkStreamGzip EXCEPT !.hd.end.code = 8, !.hd.errat = 0]
 BigResponse == [msgs |-> [x \in {"9"} |-> "size:5000"]] @@ OkUnary
 
 Kinds == {OkUnary, OkStreamGzip, RejectCodec, CutMid, Oversize, OversizeMeasure, CutMeasure, GzCorrupt, Undecodable,
-          BackendPanic, BackendError, BigResponse, CloseRace}
+          BackendPanic, BackendError, BigResponse, CloseRace, DuplexFault, DuplexFaultJson}
 Probes == {OkUnary, OkStreamGzip, OkRest, OkServerStream}
 
 HInit == hist = <<>> /\ pr = OkUnary /\ hph = "grow" /\ Init
 Grow == /\ hph = "grow" /\ Len(hist) < (IF What = "history" THEN MaxHist ELSE NConc)
-        /\ \E k \in (IF What = "history" THEN Kinds ELSE Probes \cup {CutMid, Oversize, OversizeMeasure, GzCorrupt, BackendError, CloseRace}) : hist' = Append(hist, k)
+        /\ \E k \in (IF What = "history" THEN Kinds ELSE Probes \cup {CutMid, Oversize, OversizeMeasure, GzCorrupt, BackendError, CloseRace, DuplexFault, DuplexFaultJson}) : hist' = Append(hist, k)
         /\ UNCHANGED <<pr, hph>>
 Pick == /\ hph = "grow"
         /\ (What = "conc" => Len(hist) >= 2)
